@@ -168,6 +168,8 @@ type PlanOpts struct {
 	ALPN             []string
 	PublicName       string
 	RefOuterVersions bool // reference the outer supported_versions instead of carrying an own one
+	RefOuterALPN     bool // the inner hello's ALPN extension is the outer one, referenced through ech_outer_extensions (what clients do when both offer the same protocols)
+	InnerSIDLen      int  // legacy_session_id of the EncodedClientHelloInner: 0 as the draft requires; some encoders leave the outer value in, which servers tolerate (it is replaced by the outer one either way)
 }
 
 // Plan builds a valid (inner, outer) pair.
@@ -191,7 +193,11 @@ func Plan(r *rand.Rand, o PlanOpts) *InnerPlan {
 		ivers = append([]uint16{grease()}, ivers...)
 	}
 	oexts := []Ext{SNI(o.PublicName), Versions(overs...)}
-	if r.IntN(3) == 0 {
+	refALPN := o.RefOuterALPN && len(o.ALPN) > 0 && o.MarkerPos >= 0
+	if refALPN {
+		oexts = append(oexts, ALPN(o.ALPN...))
+		used[16] = true
+	} else if r.IntN(3) == 0 {
 		// the outer hello may offer ALPN of its own; it says nothing about the inner one
 		oexts = append(oexts, ALPN("h2", "http/1.1"))
 		used[16] = true
@@ -205,6 +211,10 @@ func Plan(r *rand.Rand, o PlanOpts) *InnerPlan {
 	var refs []uint16
 	k := 0
 	for _, e := range oexts {
+		if e.Type == 16 && refALPN {
+			refs = append(refs, 16)
+			continue
+		}
 		if e.Type == 0 || e.Type == 16 {
 			continue // the inner hello keeps its own server name and ALPN
 		}
@@ -222,6 +232,9 @@ func Plan(r *rand.Rand, o PlanOpts) *InnerPlan {
 	inner := BaseHello(r)
 	inner.Version = 0x0303
 	inner.SID = nil
+	if o.InnerSIDLen > 0 {
+		inner.SID = RandBytes(r, o.InnerSIDLen)
+	}
 	inner.Random = RandBytes(r, 32)
 	iexts := []Ext{ECHInner()}
 	if o.InnerName != "" {
@@ -230,7 +243,7 @@ func Plan(r *rand.Rand, o PlanOpts) *InnerPlan {
 	if !o.RefOuterVersions {
 		iexts = append(iexts, Versions(ivers...))
 	}
-	if len(o.ALPN) > 0 {
+	if len(o.ALPN) > 0 && !refALPN {
 		iexts = append(iexts, ALPN(o.ALPN...))
 	}
 	for i := 0; i < o.NInnerOpaque; i++ {
@@ -238,7 +251,7 @@ func Plan(r *rand.Rand, o PlanOpts) *InnerPlan {
 	}
 	r.Shuffle(len(iexts), func(i, j int) { iexts[i], iexts[j] = iexts[j], iexts[i] })
 	mp := -1
-	if o.MarkerPos >= 0 && (len(refs) > 0 || r.IntN(4) == 0) {
+	if o.MarkerPos >= 0 && (len(refs) > 0 || refALPN || r.IntN(4) == 0) {
 		mp = min(o.MarkerPos, len(iexts))
 		iexts = append(iexts[:mp:mp], append([]Ext{OuterExtensions(refs...)}, iexts[mp:]...)...)
 	} else {
